@@ -14,7 +14,7 @@ REQUIRED = ["light.cycle-without-elements", "trajectories-of-nested-state-classe
             "prediction.trajectory", "prediction.set", "prediction.none", "dynamic.default-arguments",
             "phantom.no-prediction", "static.signals", "sign.virtual.True", "light.active.False",
             "light.offset.positive", "goal.position.lanelets", "goal.lanelets-after-positionless-goal-state", "lanelet.3d", "light.without-cycle",
-            "sign-or-light.without-position", "stopline.without-points", "one-writer-several-files",
+            "sign-or-light.without-position", "stopline.without-points", "one-writer-several-files", "retry-after-failed-write",
             "contract.pb.write_scenario_to_file",
             "sign.first-occurrence-on-non-referencing-lanelet", "value.interval", "initial.position.region",
             "traj-class.PMState", "fixture-file"]
